@@ -406,7 +406,8 @@ open Eru.Cluster2.DS
 
 def countsOfJson (j : Json) : Counts := (jobjList j).map fun (k, v) => (k, jnat v)
 def obsOfJson (j : Json) : Obs :=
-  { status := countsOfJson (jget j "status"), recorded := countsOfJson (jget j "recorded"), markers := countsOfJson (jget j "markers") }
+  { status := countsOfJson (jget j "status"), recorded := countsOfJson (jget j "recorded"), markers := countsOfJson (jget j "markers"),
+    markerKeys := countsOfJson (jget j "marker_keys") }
 
 def handle (j : Json) : Json :=
   let id := jget j "id"
@@ -422,7 +423,9 @@ def handle (j : Json) : Json :=
   let cls := "status:" ++ (if errs == 0 then "ok" else if errs < 0 then "refused" else "partial") ++
     (if jstr (jget shape "fault") != "" then "+fault" else "") ++
     (if (jarr (jget shape "start_fail")).length > 0 then "+startfail" else "") ++
-    (if jstr (jget shape "cancel_at") != "" then "+cancel" else "")
+    (if jstr (jget shape "cancel_at") != "" then "+cancel" else "") ++
+    (if jint (jget shape "timeout_ms") > 0 then "+timeout" else "") ++
+    (if jint (jget shape "prior_on") > 0 then "+fullnode" else "")
   verdict id agree (Json.mkObj [("observations", obs.length)]) viol cls (obs.length < 2)
 
 end DSO
